@@ -40,7 +40,7 @@ PLAN = {
     "quick": {"shards": 8, "cases": 20000, "timeout_s": 900, "min_evaluations": 120000,
               "min_counters": {"fixed_tables": 24000, "delimited_tables": 24000, "kv_documents": 24000, "ini_documents": 24000, "keyword_searches": 80000,
                                "cells_compared": 480000}},
-    "thorough": {"shards": 16, "cases": 60000, "timeout_s": 3300, "min_evaluations": 800000,
+    "thorough": {"shards": 16, "cases": 350000, "timeout_s": 3300, "min_evaluations": 800000,
                  "min_counters": {"fixed_tables": 150000}},
 }
 KNOWN_INI = "ini-indented-comment-after-option-joins-the-value"
